@@ -10,6 +10,7 @@ Model driver for C09. One JSON op per line; see `harness/src/bin/c09.rs` for the
   {"op":"canon","table":[MSG..],"idx":i,"bytes":HEX}  canonical_raw against an inline (synthetic) table
   {"op":"schema","name":NAME}                         the translator's view of a message descriptor
   {"op":"names"}                                      all message names of the regenerated table
+  {"op":"buildcheck","table":[MSG..],"proto":TEXT}    the build-time restriction (`supportsCanonical`) on a small schema
   {"op":"bitvec","bits":"0101"} / {"op":"bitvec_read","size":n,"bytes":HEX}
   {"op":"duration"|"timestamp","secs":i,"nanos":i} / {"op":"duration_read","secs":i,"nanos":i}
   {"op":"sockaddr","ip":HEX,"port":n} / {"op":"sockaddr_read","ip":HEX,"port":n}
@@ -180,6 +181,10 @@ def handle (j : Json) : Json :=
       | some m =>
         Json.mkObj [("known", Json.bool true), ("proto3", Json.bool m.proto3),
                     ("fields", Json.arr ((sortFields m.fields).map (fieldJson tbl)).toArray)]
+  | some "buildcheck" =>
+    match parseTable j with
+    | some tbl => Json.mkObj [("ok", Json.bool (supportsCanonical tbl))]
+    | none => badOp
   | some "names" =>
     Json.mkObj [("names", Json.arr (EraVerif.Gen.Schemas.table.map (fun m => Json.str m.name)).toArray)]
   | some "bitvec" =>
